@@ -252,6 +252,17 @@ def check(case, ctx):
         ctx.label("other-exception(C12)")
         return
     ctx.label("substituted")
+    # the same substitution through visitors of one's own (default-constructed, and with the substitution validator
+    # passed explicitly): same result
+    from d42.substitution import Substitutor, SubstitutorValidator
+    for label, make in (("Substitutor()", lambda: Substitutor()),
+                        ("Substitutor(validator=SubstitutorValidator())", lambda: Substitutor(validator=SubstitutorValidator()))):
+        try:
+            R_own = S.__accept__(make(), value=substgen.realize(case))
+        except Exception as e:  # noqa
+            raise Violation("own-substitutor-differs", f"{_r(S)} % {v!r} succeeds, S.__accept__({label}, value=v) raised {e!r}")
+        if canon.canon(R_own) != canon.canon(R):
+            raise Violation("own-substitutor-differs", f"{_r(S)} % {v!r} = {_r(R)}, but S.__accept__({label}, value=v) = {_r(R_own)}")
     try:
         v_ok = not validate(S, v).has_errors()
     except Exception:  # noqa
